@@ -146,6 +146,7 @@ struct Engine : MemView {
         void thread_body(int id);
         void run_threads();
         void join_others();
+        bytes iso_ev, iso_cmd;
         // livelock detection
         uint64_t last_state_hash = 0;
         bool last_state_valid = false;
@@ -1214,8 +1215,22 @@ int Engine::service_once()
                 return CAT_STATUS_BUSY;
         }
         uint64_t cb0 = callbacks;
-        size_t out0 = es.tx_bytes;
-        (void)out0;
+        // half-isolation (C03): with a shared buffer, the half of a state machine that has nothing to do
+        // must not change during this call, whatever the other machine does
+        bool iso = plan.shared && mon.model_ok() && !mon.viol.set() && !ls_on;
+        bool ev_idle0 = false, cmd_idle0 = false, held0 = false;
+        uint64_t acc0 = 0, rx0 = 0;
+        if (iso) {
+                ev_idle0 = mon.ev_idle();
+                held0 = mon.held_unreleased();
+                cmd_idle0 = !mon.line_pending() && !mon.partial_line() && !mon.held();
+                acc0 = mon.st.events_accepted;
+                rx0 = es.rx_bytes;
+                if (ev_idle0)
+                        iso_ev.assign((const char *)evbuf, evcap);
+                if (cmd_idle0 || held0)
+                        iso_cmd.assign((const char *)cmdbuf, cmdcap);
+        }
         if (!plan.mutex)
                 mon.on_service_begin();
         int st = api_service();
@@ -1226,6 +1241,16 @@ int Engine::service_once()
         note_fp(st == CAT_STATUS_OK ? 9 : 10);
         mon.on_service_end(st);
         check_ro();
+        if (iso && !mon.viol.set() && mon.model_ok()) {
+                if (ev_idle0 && mon.st.events_accepted == acc0 && memcmp(iso_ev.data(), evbuf, evcap) != 0)
+                        mon.fail("C03", "event-half-of-shared-buffer-touched", "the unsolicited half of the shared working buffer changed during a service call although no event was pending");
+                else if (held0 && mon.held_unreleased() && memcmp(iso_cmd.data(), cmdbuf, cmdcap) != 0)
+                        mon.fail("C03", "command-half-of-shared-buffer-touched", "the command half of the shared working buffer changed while the command was suspended (hold)");
+                else if (cmd_idle0 && es.rx_bytes == rx0 && memcmp(iso_cmd.data(), cmdbuf, cmdcap) != 0)
+                        mon.fail("C03", "command-half-of-shared-buffer-touched", "the command half of the shared working buffer changed although no command line was in progress and no byte was read");
+                else
+                        es.iso_checks++;
+        }
         if (ls_on && g_ls_fault && !mon.dead()) {
                 mon.fail(e_lock_tag(), "state-accessed-without-lock", "parser state or working buffer touched while the mutex was not held");
                 g_ls_fault = 0;
@@ -1499,37 +1524,45 @@ void Engine::exec(const Op &o)
         flush_yield();
 }
 
-// C07: AT<cmd>? -> take the text after "NAME=" -> scramble variables -> AT<cmd>=<text> -> compare
+// C07: AT<cmd>? -> take the text after "NAME=" -> scramble variables -> AT<cmd>=<text> -> compare.
+// This oracle is model-free; it runs to its end even if the model-based monitor has already objected, and
+// its own verdict (property C07) then takes precedence for this run.
 void Engine::roundtrip(int ci)
 {
         const CmdSpec &cs = plan.cmds[(size_t)ci];
+        auto c07 = [&](const char *rule, const std::string &detail) {
+                if (mon.viol.set() && mon.viol.prop == "C07")
+                        return;
+                std::string also = mon.viol.set() ? " [the model-based monitor also reported " + mon.viol.prop + "/" + mon.viol.rule + "]" : "";
+                mon.viol = Violation();
+                mon.fail("C07", rule, detail + also, true);
+        };
         auto quiesce = [&]() {
                 long bound = drain_bound() + 64;
-                for (long i = 0; i < bound * 4 && !mon.dead() && !es.overrun; i++) {
+                for (long i = 0; i < bound * 4 && !es.overrun; i++) {
                         int st = service_once();
                         if (st == CAT_STATUS_OK && rx_pos >= rx.size())
                                 return true;
+                        if (mon.model_ok() && mon.held_unreleased())
+                                do_hexit(0);
                 }
                 return false;
         };
-        if (!quiesce())
+        if (mon.viol.set() || !quiesce())
                 return;
         std::vector<bytes> before;
         for (size_t v = 0; v < cs.vars.size(); v++)
                 before.push_back(var_bytes(ci, (int)v));
         size_t out0 = out.size();
         rx += "AT" + cs.name + "?\n";
-        if (!quiesce()) {
-                if (!mon.dead())
-                        mon.fail("C15", "no-quiescence-within-bound", "round trip READ did not finish");
+        if (!quiesce())
                 return;
-        }
         bytes resp = out.substr(out0);
         std::string prefix = "\n" + cs.name + "=";
         size_t a = resp.find(prefix);
         size_t b = a == bytes::npos ? bytes::npos : resp.find("\n", a + prefix.size());
         if (a == bytes::npos || b == bytes::npos || resp.find("\nOK\n", b) == bytes::npos) {
-                mon.fail("C07", "read-response-missing", "AT" + vis(cs.name) + "? did not answer with a data line and OK: \"" + vis(resp) + "\"");
+                c07("read-response-missing", "AT" + vis(cs.name) + "? did not answer with a data line and OK: \"" + vis(resp) + "\"");
                 return;
         }
         bytes text = resp.substr(a + prefix.size(), b - a - prefix.size());
@@ -1547,16 +1580,11 @@ void Engine::roundtrip(int ci)
         }
         out0 = out.size();
         rx += "AT" + cs.name + "=" + text + "\n";
-        if (!quiesce()) {
-                if (!mon.dead())
-                        mon.fail("C15", "no-quiescence-within-bound", "round trip WRITE did not finish");
-                return;
-        }
-        if (mon.dead())
+        if (!quiesce())
                 return;
         resp = out.substr(out0);
         if (resp.find("\nOK\n") == bytes::npos) {
-                mon.fail("C07", "write-of-read-text-rejected", "AT" + vis(cs.name) + "=" + vis(text) + " answered \"" + vis(resp) + "\"");
+                c07("write-of-read-text-rejected", "AT" + vis(cs.name) + "=" + vis(text) + " answered \"" + vis(resp) + "\"");
                 return;
         }
         for (size_t v = 0; v < cs.vars.size(); v++) {
@@ -1568,8 +1596,8 @@ void Engine::roundtrip(int ci)
                 } else
                         same = now == before[v];
                 if (!same) {
-                        mon.fail("C07", "value-not-restored", "cmd " + vis(cs.name) + " var " + std::to_string(v) + " (type " + std::to_string(vs.type) + " size " + std::to_string(vs.size) +
-                                                                  "): before=" + hexenc(before[v]) + " after=" + hexenc(now) + " via text \"" + vis(text) + "\"");
+                        c07("value-not-restored", "cmd " + vis(cs.name) + " var " + std::to_string(v) + " (type " + std::to_string(vs.type) + " size " + std::to_string(vs.size) +
+                                                      "): before=" + hexenc(before[v]) + " after=" + hexenc(now) + " via text \"" + vis(text) + "\"");
                         return;
                 }
         }
